@@ -84,7 +84,8 @@ fn native_descriptions() -> Vec<String> {
 }
 
 enum Cmd {
-    Fail(usize),
+    /// failure kind, and for packet-level calls optionally a packet shared between the threads
+    Fail(usize, Option<usize>),
     Read,
     Quit,
 }
@@ -101,7 +102,9 @@ struct Worker {
     handle: Option<std::thread::JoinHandle<()>>,
 }
 
-fn spawn_worker() -> Worker {
+type Shared = std::sync::Arc<Vec<std::sync::Mutex<ParsedPacket>>>;
+
+fn spawn_worker(shared: Shared) -> Worker {
     let (tx, crx) = channel::<Cmd>();
     let (rtx, rx) = channel::<Reply>();
     let handle = std::thread::Builder::new().stack_size(256 * 1024).spawn(move || {
@@ -113,8 +116,15 @@ fn spawn_worker() -> Worker {
         let mut kept: *const libc::c_char = std::ptr::null();
         while let Ok(cmd) = crx.recv() {
             match cmd {
-                Cmd::Fail(k) => {
-                    let rc = fail_call(&table, &mut pp, k, &mut err);
+                Cmd::Fail(k, which) => {
+                    let rc = match which {
+                        Some(i) => {
+                            // a packet handed from thread to thread (the schedule is lock-step, the mutex is never contended)
+                            let mut g = shared[i % shared.len()].lock().unwrap();
+                            fail_call(&table, &mut g, k, &mut err)
+                        }
+                        None => fail_call(&table, &mut pp, k, &mut err),
+                    };
                     kept = std::ptr::null();
                     let _ = rtx.send(Reply::Failed(rc));
                 }
@@ -161,7 +171,9 @@ pub struct Arena {
 
 impl Arena {
     pub fn new(n: usize) -> Arena {
-        Arena { workers: (0..n).map(|_| spawn_worker()).collect(), last: vec![None; n], last_seq: vec![0; n], seq: 0, desc: native_descriptions() }
+        let mk = || std::sync::Mutex::new(DNSSector::new(gens::golden_packets()[0].clone()).unwrap().parse().unwrap());
+        let shared: Shared = std::sync::Arc::new(vec![mk(), mk()]);
+        Arena { workers: (0..n).map(|_| spawn_worker(shared.clone())).collect(), last: vec![None; n], last_seq: vec![0; n], seq: 0, desc: native_descriptions() }
     }
 
     /// Executes the schedule exactly (lock-step through the channels). Returns the number of
@@ -170,8 +182,11 @@ impl Arena {
         let mut nontrivial = 0;
         for (i, &(t, step)) in sched.iter().enumerate() {
             let w = &self.workers[t];
-            if step < FAIL_KINDS {
-                w.tx.send(Cmd::Fail(step)).map_err(|_| Failure::new("C16 worker-died", "send"))?;
+            if step != FAIL_KINDS {
+                // steps above FAIL_KINDS: the same failure kinds on one of the two shared packets
+                let (kind, which) = if step < FAIL_KINDS { (step, None) } else { ((step - FAIL_KINDS - 1) % FAIL_KINDS, Some((step - FAIL_KINDS - 1) / FAIL_KINDS)) };
+                let step = kind;
+                w.tx.send(Cmd::Fail(kind, which)).map_err(|_| Failure::new("C16 worker-died", "send"))?;
                 match w.rx.recv() {
                     Ok(Reply::Failed(rc)) => {
                         ensure!(rc == -1, "C16 failing-call-did-not-return-minus-one", "kind {} returned {}", step, rc);
@@ -229,7 +244,17 @@ fn c16_case(data: &[u8], st: &mut Stats) -> PResult {
     let sched: Vec<(usize, usize)> = (0..len)
         .map(|_| {
             let t = src.below(n);
-            let step = if src.chance(110) { FAIL_KINDS } else { src.below(FAIL_KINDS) };
+            let step = if src.chance(110) {
+                FAIL_KINDS
+            } else {
+                let k = src.below(FAIL_KINDS);
+                // packet-level failures (add_to_answer, add_to_question, rename) sometimes on a packet shared by all threads
+                if matches!(k, 2 | 3 | 6) && src.chance(128) {
+                    FAIL_KINDS + 1 + k + FAIL_KINDS * src.below(2)
+                } else {
+                    k
+                }
+            };
             (t, step)
         })
         .collect();
@@ -250,7 +275,7 @@ fn c16_case(data: &[u8], st: &mut Stats) -> PResult {
         st.class("read-after-foreign-failure");
         st.nontrivial(&sched);
         if st.wants_sample(&format!("threads:{}", n)) {
-            st.sample(&format!("threads:{}", n), json!({"schedule (thread, step: 0..3 = failure kind, 4 = read)": sched}));
+            st.sample(&format!("threads:{}", n), json!({"schedule (thread, step: 0..6 = failure kind on the thread's own packet, 7 = read, 8.. = failure kind on a shared packet)": sched}));
         }
     }
     Ok(())
@@ -322,12 +347,29 @@ pub fn check_c16(ctx: &Ctx, known: &KnownFindings) -> Report {
     rep.exhaustive = Some(true);
     rep.extra.insert("exhaustive_subspace".into(), json!(format!("all schedules of length 1..{} over 2 threads x {{fail(name conversion), fail(record text), read}} = {} schedules, executed in lock-step", maxlen, n)));
     rep.stats.sample("exhaustive", json!({"schedule": "[(0,fail0),(1,fail2),(0,read)]", "expected": "thread 0 reads the name-conversion failure"}));
+    // many live threads: 70 threads fail once, then each fails again in turn while all others re-read
+    {
+        let n = 70;
+        let r = catch(|| -> PResult {
+            let mut arena = Arena::new(n);
+            let mut sched: Vec<(usize, usize)> = (0..n).map(|t| (t, 0)).collect();
+            for t in 0..n {
+                sched.push((t, 2));
+                for u in 0..n {
+                    sched.push((u, FAIL_KINDS));
+                }
+            }
+            arena.run(&sched).map(|_| ())
+        });
+        rep.stats.class("many-live-threads:70");
+        rep.direct("70 live threads", r, &ks);
+    }
     let prop = (200usize, c16_case);
     let r = drive(&prop, ctx.cases(20_000, 400_000), ctx, 16, &ks);
     rep.absorb(r);
-    rep.rule = "schedules = sequences of (thread, fail_k | read) executed exactly: each schedule thread is an OS thread that performs one table call per command received over a channel and replies before the next command is issued (the harness owns the interleaving). fail_k are seven table calls failing with seven distinct descriptions (raw_name_from_str x4, add_to_answer, add_to_question, rename_with_raw_names); read = error_description(err) with that thread's err pointer. Oracle: model of per-thread last failure (descriptions taken from the native API); every read returns it. Exhaustive for 2 threads x 2 failure kinds x read up to the stated length; random for 3-4 threads, length <= 40. Non-trivial: a read whose thread's last failure precedes a failure on another thread.".into();
+    rep.rule = "schedules = sequences of (thread, fail_k | read) executed exactly: each schedule thread is an OS thread that performs one table call per command received over a channel and replies before the next command is issued (the harness owns the interleaving). fail_k are seven table calls failing with seven distinct descriptions (raw_name_from_str x4, add_to_answer, add_to_question, rename_with_raw_names); read = error_description(err) with that thread's err pointer. Oracle: model of per-thread last failure (descriptions taken from the native API); every read returns it. Exhaustive for 2 threads x 2 failure kinds x read up to the stated length; random for 3-4 threads, length <= 40, packet-level failures on the thread's own packet or on one of two packets handed between the threads; one deterministic schedule with 70 live threads. Non-trivial: a read whose thread's last failure precedes a failure on another thread.".into();
     rep.assumptions = vec!["interleavings are explored at the granularity of whole table calls (the property's own granularity); interleavings inside throw_err are not".into(), "a read before the thread's first failure is not judged (err pointer still NULL)".into()];
-    rep.require(&["exhaustive-schedules", "threads:3", "threads:4", "read-after-foreign-failure"]);
+    rep.require(&["exhaustive-schedules", "threads:3", "threads:4", "read-after-foreign-failure", "many-live-threads:70"]);
     rep
 }
 
